@@ -16,6 +16,7 @@ import cert, sweep, calcb
 from cert import Const, ZERO, ONE, HALF, PI, lift
 from calcb import fs, fr, fsl, frl, rq, rpoly, tol_instance
 from props.engineb import run_and_report, replay_generic, short, mk_mpf
+from props import c12
 
 LEVEL = "exploration"
 
@@ -32,7 +33,8 @@ ASSUMPTIONS = [
     "'the same accuracy' is read as |recovered - planted| <= 2^(10-p)*max(|A_n|,|B_n|); coefficients of order D < n <= N must come back as "
     "(near) zero under the same absolute bound; the sine coefficient of order 0 must be 0.",
     "fourierval reference = the definition sum c_n cos(2 pi n x/L) + s_n sin(2 pi n x/L) with L = b-a (exact dyadic coefficients and "
-    "point); tolerance 2^(10-p)*max(|ref|, 1).",
+    "point; cos(pi r)/sin(pi r) after exact reduction of the rational r to [-1/2,1/2] by periodicity, exact values at multiples of 1/2); "
+    "tolerance 2^(10-p)*max(|ref|, 1).",
     "The functions handed to mpmath are Python lambdas evaluating the same expressions at the working precision in force.",
     "Universal accuracy is NOT proved: sampled instances only (level exploration, certified oracle).",
 ]
@@ -247,9 +249,9 @@ def build_instances(cid, spec, prec, R, regime):
         cs, ss = frl(spec["cs"]), frl(spec["ss"]); a, b = fr(spec["a"]), fr(spec["b"]); x = fr(spec["x"])
         ref = ZERO
         for n, c in enumerate(cs):
-            if c: ref = ref + Const(c) * cert.cos(PI * Const(2 * n * x / (b - a)))
+            if c: ref = ref + Const(c) * c12.cospi_real(2 * n * x / (b - a))
         for n, c in enumerate(ss):
-            if c: ref = ref + Const(c) * cert.sin(PI * Const(2 * n * x / (b - a)))
+            if c: ref = ref + Const(c) * c12.sinpi_real(2 * n * x / (b - a))
         out.append(tol_instance(cid + "_val", y, ref, eps, meta=meta("value", "fourierval")))
         return out, direct
     raise KeyError(k)
